@@ -18,6 +18,7 @@ SCHEDULE: comma separated macro actions, `X<pid>`:
   `X<10*pid+k>` run the process and take its k-th (0-based) conditional early return,
   `L` run until the flock step has been executed (or the process ended),
   `S` run until the device session has begun (or the process ended),
+  `P` run until the device session is over (history RES:/END: and the status file still to be written),
   `R` run to the end.
 Outcome: `procs=<v0>,<v1>,…;dev=<pids>;hist=<file>[<pid:tag,…>]…;status=<pids>` where `<vi>` is made of
 `W` (acquired the lock at some time), `L` (a flock failed), `K` (killed), then the exit code or `*`;
@@ -51,6 +52,7 @@ def stepsUntil (w : World) (i : Pid) (stop : Proc → List Ev → Bool) (autoExe
     else stepsUntil (step1 w i autoExec) i stop autoExec fuel
 
 def pastFlock (i : Pid) (_ : Proc) (tr : List Ev) : Bool := tr.any fun e => e.pid == i && e.step == .flock
+def afterSession (i : Pid) (_ : Proc) (tr : List Ev) : Bool := tr.any fun e => e.pid == i && e.step == .devEnd
 def inSession (i : Pid) (_ : Proc) (tr : List Ev) : Bool := tr.any fun e => e.pid == i && e.step == .devBegin
 
 /-- run process `i`, passing conditional returns, and take the `k`-th one -/
@@ -76,6 +78,7 @@ def applyMacro (w : World) (c : Char) (i : Pid) : Option World :=
   | 'g' => some (exec w (.gc i))
   | 'L' => some (stepsUntil w i (pastFlock i) true 200)
   | 'S' => some (stepsUntil w i (inSession i) true 200)
+  | 'P' => some (stepsUntil w i (afterSession i) true 200)
   | 'R' => some (stepsUntil w i (fun _ _ => false) true 200)
   | _ => none
 
